@@ -173,6 +173,25 @@ let run_case (line : string) : string =
         "repl " ^ pr_res pr_repl (parse_repl (encode_repl r)) ^ " | cluster "
         ^ pr_res (fun (m, ext) -> pr_pcm m ^ " ext=" ^ b01 ext)
             (parse_pcm unpack (if compress then pcm_to_compressed_args pack c else pcm_to_args all_cfields c)))
+  | "infomgr_e2e" ->
+    (* migrations of k range lists from proxy 1 / node 1 to proxy 2 / node 2 (addresses of harness/wire/src/e2e.rs): the INFOMGR reply
+       elements of the source proxy and what the coordinator reads from them *)
+    let name = tokv toks in let epoch = num toks in let k = cnt toks in
+    let rls = times k (fun () -> rd_rl toks) in
+    let mm = { mm_epoch = epoch; mm_src_proxy = nlist_of_string "127.0.1.1:5299"; mm_src_node = nlist_of_string "127.0.1.1:7001";
+               mm_dst_proxy = nlist_of_string "127.0.2.1:5299"; mm_dst_node = nlist_of_string "127.0.2.1:7001" } in
+    guard (valid_cluster_name name && le64 epoch && List.for_all ok_rl rls) (fun () ->
+        let tasks = List.map (fun rl -> { tm_cluster = name; tm_sr = norm_sr { sr_ranges = rl; sr_tag = TMigrating mm } }) rls in
+        let strs = List.map task_to_string tasks in
+        let raw = List.sort compare (List.map hex strs) in
+        let dec = List.map task_of_string strs in
+        let all_ok = List.for_all (fun r -> match r with Ok _ -> true | _ -> false) dec in
+        let body =
+          if all_ok then
+            let v = List.sort compare (List.concat_map (fun r -> match r with Ok t -> [pr_task t] | _ -> []) dec) in
+            "ok " ^ pi (List.length v) ^ " " ^ String.concat " ; " v
+          else "err None" in
+        "reply " ^ String.concat " " raw ^ " | " ^ body)
   | "coord_infomgr" -> pr_res pr_task (task_of_string (tokv toks))
   | "repl_enc" -> let m = rd_repl toks in guard (ok_repl m) (fun () -> pr_toks (encode_repl m))
   | "repl_dec" -> pr_res pr_repl (parse_repl (rd_toks toks))
